@@ -399,12 +399,12 @@ def r7_metadata(report, repo):
 
 
 def run(report, repo):
-  loop = r1_exit_paths(report, repo)
-  r2_callbacks(report, repo, loop)
-  r3_atomic_create(report, repo)
-  r4_final_fields(report, repo)
-  r5_running_markers(report, repo)
-  r6_handler_pairing(report, repo)
-  r7_metadata(report, repo)
+  loop = report.guard(r1_exit_paths, report, repo)
+  report.guard(r2_callbacks, report, repo, loop)
+  report.guard(r3_atomic_create, report, repo)
+  report.guard(r4_final_fields, report, repo)
+  report.guard(r5_running_markers, report, repo)
+  report.guard(r6_handler_pairing, report, repo)
+  report.guard(r7_metadata, report, repo)
   from sa.rules import c01  # pylint: disable=g-import-not-at-top
-  c01.r8_execute_returns_pass(report, repo)
+  report.guard(c01.r8_execute_returns_pass, report, repo)
